@@ -279,6 +279,8 @@ def canon_err(m):
     """bank names are not part of the model's error classes"""
     if m.startswith("output of bank") or m.startswith("output to non-writable bank") or m.startswith("output out of range for bank"):
         m = re.sub(r" `[^`]*`", "", m)
+    if m.startswith("file not found: `"):
+        m = "file not found"            # the model's error class; the name is the argument of the call
     return m
 
 
